@@ -517,6 +517,11 @@ class MetadorGroup(MetadorNode):
         raw_source = source.__wrapped__ if isinstance(source, MetadorNode) else source
         self.__wrapped__.copy(raw_source, dst_path, **copy_kwargs)  # RAW
         dst_node = self[dst_path]  # exists now
+        if src_node.name == "/":
+            # a copy of the root took the bookkeeping of the container along -> remove that stale copy
+            stale_toc = dst_node.name + M.METADOR_TOC_PATH
+            if stale_toc in self.__wrapped__:  # RAW
+                del self.__wrapped__[stale_toc]  # RAW
 
         src_meta: str = src_node.meta._base_dir
         has_meta: bool = src_meta in self.__wrapped__  # any metadata attached?  # RAW
